@@ -115,3 +115,17 @@ func verifReach(m string)          { VerifReach(m) }
 func verifObserve(v int64)         { VerifObserve(v) }
 func verifNote(m string)           { VerifNote(m) }
 func verifTier() int               { return VerifTier() }
+
+// VerifSetFile defines the ghost file the os.* stubs serve; natively it
+// materialises the file so that the real os.Open sees the same thing.
+func VerifSetFile(name string, content []byte, length int, mode int) {
+	os.Remove(name)
+	if mode == 0 {
+		if err := os.WriteFile(name, content[:length], 0644); err != nil {
+			panic(VerifStop{"cannot write " + name})
+		}
+	}
+}
+func verifSetFile(name string, content []byte, length int, mode int) {
+	VerifSetFile(name, content, length, mode)
+}
